@@ -602,7 +602,7 @@ func (c08) Generate(rng *rand.Rand, tier string, st *Stats) []Case {
 			L := 3
 			var rec func(prefix [][]string, depth int)
 			socks := []string{"ok", "err", "short"}
-			cnt := 0
+			cnt, rawCnt := 0, 0
 			rec = func(prefix [][]string, depth int) {
 				if depth == 0 {
 					ops := append([][]string(nil), prefix...)
@@ -623,6 +623,11 @@ func (c08) Generate(rng *rand.Rand, tier string, st *Stats) []Case {
 					} else {
 						// raw strings are put on the wire as they are: also with printf verbs and escapes in them
 						op = []string{"sendraw", hx(fmt.Sprintf("<presence id='p%d'><status>100%% %%s %%d %%!C(x) \\n</status></presence>", cnt)), s}
+						rawCnt++
+						if rawCnt%4 == 1 {
+							// a raw string need not be an element: the white space "ping" goes on the wire as it is
+							op = []string{"sendraw", hx([]string{" ", "\n", " \n\t ", "\r\n"}[(rawCnt/4)%4]), s}
+						}
 					}
 					rec(append(prefix, op), depth-1)
 				}
